@@ -28,6 +28,8 @@ var c9mapKeys = []c9key{
 	{"nil", "nil", true, "nil"}, {"true", "bool|true", true, "true"}, {"false", "bool|false", true, "false"},
 	{"[1]", "arr[1]", false, "[1]"}, {"[1, 2]", "arr[1,2]", false, "[1, 2]"}, {"[]", "arr[]", false, "[]"}, {"[[1]]", "arr[[1]]", false, "[[1]]"},
 	{"{a: 1}", "obj{a:1}", false, `{"a": 1}`}, {"{}", "obj{}", false, "{}"}, {"[1.0]", "arr[1.0]", false, "[1.000000]"}, {`["a"]`, `arr["a"]`, false, `["a"]`},
+	{"0.3", "float|0.3", true, "0.300000"}, {"(0.1 + 0.2)", "float|0.30000000000000004", true, "0.300000"}, {"0.0", "float|0", true, "0.000000"},
+	{"1.0e-10", "float|1e-10", true, "0.000000"}, {"(1.0 / 4000000000.0)", "float|2.5e-10", true, "0.000000"}, {"1.0000000001", "float|1.0000000001", true, "1.000000"},
 	{"{a: [1]}", "obj{a:[1]}", false, `{"a": [1]}`}, {"[0 + 1]", "arr[1]", false, "[1]"}, {"{'a: 1}", "obj{a:1}", false, `{"a": 1}`},
 }
 
@@ -36,6 +38,24 @@ var c9objNames = []string{"a", "b", "c", "d", "e", "ab", "b1", "_p", "_q", "_a"}
 type c9pair struct {
 	key c9key
 	val int
+}
+
+// c9v renders a model value: 0 stands for nil (a nil value is a value like any other: it takes part in
+// first-occurrence-wins, is listed by values/items and is not replaced by a later duplicate).
+func c9v(v int) string {
+	if v == 0 {
+		return "nil"
+	}
+	return fmt.Sprint(v)
+}
+
+// c9next draws the next value: a fresh 4-digit int, or nil one time in five.
+func c9next(rng *rand.Rand, next *int) int {
+	*next++
+	if rng.Intn(5) == 0 {
+		return 0
+	}
+	return *next
 }
 
 // first-wins insertion
@@ -64,8 +84,7 @@ func genObjCase(rng *rand.Rand, next *int) c9case {
 	dup := false
 	for i := 0; i < n; i++ {
 		name := c9objNames[rng.Intn(len(c9objNames))]
-		*next++
-		v := *next
+		v := c9next(rng, next)
 		if used[name] {
 			dup = true
 		}
@@ -84,7 +103,7 @@ func genObjCase(rng *rand.Rand, next *int) c9case {
 			keySrc = "^" + kv
 			c.tags = append(c.tags, "pinned")
 		}
-		parts = append(parts, fmt.Sprintf("%s: %d", keySrc, v))
+		parts = append(parts, fmt.Sprintf("%s: %s", keySrc, c9v(v)))
 		c.model = c9insert(c.model, c9pair{c9key{src: name, ident: name, insp: `"` + name + `"`}, v})
 	}
 	if dup {
@@ -96,9 +115,9 @@ func genObjCase(rng *rand.Rand, next *int) c9case {
 		var local []c9pair
 		for j := rng.Intn(5); j > 0; j-- {
 			name := c9objNames[rng.Intn(len(c9objNames))]
-			*next++
-			inner = append(inner, fmt.Sprintf("%s: %d", name, *next))
-			local = c9insert(local, c9pair{c9key{src: name, ident: name, insp: `"` + name + `"`}, *next})
+			v := c9next(rng, next)
+			inner = append(inner, fmt.Sprintf("%s: %s", name, c9v(v)))
+			local = c9insert(local, c9pair{c9key{src: name, ident: name, insp: `"` + name + `"`}, v})
 		}
 		for _, p := range local {
 			before := len(c.model)
@@ -130,10 +149,10 @@ func genMapCase(rng *rand.Rand, next *int) c9case {
 	n := rng.Intn(9)
 	for i := 0; i < n; i++ {
 		k := c9mapKeys[rng.Intn(len(c9mapKeys))]
-		*next++
-		parts = append(parts, fmt.Sprintf("%s: %d", k.src, *next))
+		v := c9next(rng, next)
+		parts = append(parts, fmt.Sprintf("%s: %s", k.src, c9v(v)))
 		before := len(c.model)
-		c.model = c9insert(c.model, c9pair{k, *next})
+		c.model = c9insert(c.model, c9pair{k, v})
 		if len(c.model) == before {
 			c.tags = append(c.tags, "dup-literal")
 		}
@@ -148,9 +167,9 @@ func genMapCase(rng *rand.Rand, next *int) c9case {
 			var local []c9pair
 			for j := rng.Intn(4); j > 0; j-- {
 				name := c9objNames[rng.Intn(len(c9objNames))]
-				*next++
-				inner = append(inner, fmt.Sprintf("%s: %d", name, *next))
-				local = c9insert(local, c9pair{c9key{src: `"` + name + `"`, ident: "str|" + name, scalar: true, insp: `"` + name + `"`}, *next})
+				v := c9next(rng, next)
+				inner = append(inner, fmt.Sprintf("%s: %s", name, c9v(v)))
+				local = c9insert(local, c9pair{c9key{src: `"` + name + `"`, ident: "str|" + name, scalar: true, insp: `"` + name + `"`}, v})
 			}
 			sort.SliceStable(local, func(i, j int) bool {
 				pi, pj := strings.HasPrefix(local[i].key.ident, "str|_"), strings.HasPrefix(local[j].key.ident, "str|_")
@@ -170,9 +189,9 @@ func genMapCase(rng *rand.Rand, next *int) c9case {
 		var local []c9pair
 		for j := rng.Intn(5); j > 0; j-- {
 			kk := c9mapKeys[rng.Intn(len(c9mapKeys))]
-			*next++
-			inner = append(inner, fmt.Sprintf("%s: %d", kk.src, *next))
-			local = c9insert(local, c9pair{kk, *next})
+			v := c9next(rng, next)
+			inner = append(inner, fmt.Sprintf("%s: %s", kk.src, c9v(v)))
+			local = c9insert(local, c9pair{kk, v})
 		}
 		// the operand map itself iterates scalars first
 		for _, sc := range []bool{true, false} {
@@ -227,9 +246,9 @@ func c9check(ip *interp.Interp, c *c9case) (key, detail string) {
 				case "k":
 					it = append(it, p.key.insp)
 				case "v":
-					it = append(it, fmt.Sprint(p.val))
+					it = append(it, c9v(p.val))
 				default:
-					it = append(it, fmt.Sprintf("[%s, %d]", p.key.insp, p.val))
+					it = append(it, fmt.Sprintf("[%s, %s]", p.key.insp, c9v(p.val)))
 				}
 			}
 			return inspList(it)
@@ -246,10 +265,10 @@ func c9check(ip *interp.Interp, c *c9case) (key, detail string) {
 			}
 		}
 		for _, p := range c.model {
-			if k, d := expect("index present", "o['"+p.key.ident+"]", fmt.Sprint(p.val)); k != "" {
+			if k, d := expect("index present", "o['"+p.key.ident+"]", c9v(p.val)); k != "" {
 				return k, d
 			}
-			if k, d := expect("property read", "o."+p.key.ident, fmt.Sprint(p.val)); k != "" {
+			if k, d := expect("property read", "o."+p.key.ident, c9v(p.val)); k != "" {
 				return k, d
 			}
 		}
@@ -266,7 +285,9 @@ func c9check(ip *interp.Interp, c *c9case) (key, detail string) {
 			sort.Strings(got)
 			var want []string
 			for _, p := range c.model {
-				want = append(want, fmt.Sprint(p.val))
+				if p.val != 0 {
+					want = append(want, fmt.Sprint(p.val))
+				}
 			}
 			sort.Strings(want)
 			if !o.OK() || strings.Join(got, ",") != strings.Join(want, ",") {
@@ -287,8 +308,8 @@ func c9check(ip *interp.Interp, c *c9case) (key, detail string) {
 	var ks, vs, its []string
 	for _, p := range ordered {
 		ks = append(ks, p.key.insp)
-		vs = append(vs, fmt.Sprint(p.val))
-		its = append(its, fmt.Sprintf("[%s, %d]", p.key.insp, p.val))
+		vs = append(vs, c9v(p.val))
+		its = append(its, fmt.Sprintf("[%s, %s]", p.key.insp, c9v(p.val)))
 	}
 	for _, t := range []struct{ acc, expr, want string }{
 		{"keys", "m.keys", inspList(ks)}, {"values", "m.values", inspList(vs)}, {"items", "m.items", inspList(its)}, {"A", "m.A", inspList(its)},
@@ -301,7 +322,7 @@ func c9check(ip *interp.Interp, c *c9case) (key, detail string) {
 		}
 	}
 	for _, p := range c.model {
-		if k, d := expect("index present ("+pickS(p.key.scalar, "scalar", "non-scalar")+" key)", "m["+p.key.src+"]", fmt.Sprint(p.val)); k != "" {
+		if k, d := expect("index present ("+pickS(p.key.scalar, "scalar", "non-scalar")+" key)", "m["+p.key.src+"]", c9v(p.val)); k != "" {
 			return k, d
 		}
 	}
@@ -317,7 +338,12 @@ func c9check(ip *interp.Interp, c *c9case) (key, detail string) {
 			got[i] = strings.TrimPrefix(got[i], ": ")
 		}
 		sort.Strings(got)
-		want := append([]string{}, vs...)
+		var want []string
+		for _, v := range vs {
+			if v != "nil" {
+				want = append(want, v)
+			}
+		}
 		sort.Strings(want)
 		if !o.OK() || strings.Join(got, ",") != strings.Join(want, ",") {
 			return fail("printing `"+acc+"`", o.Outcome(), "values "+strings.Join(want, ","))
